@@ -28,7 +28,7 @@ TARGET = os.path.join(ROOT, "target")
 # and /verif/target are not touched.  Registered commands never set this.
 REPO = os.environ.get("CBVERIF_REPO", "/repo")
 if REPO != "/repo":
-    _alt = os.path.join(OUT, "alt")
+    _alt = os.path.join(OUT, "alt-" + hashlib.sha256(REPO.encode()).hexdigest()[:8])
     os.makedirs(_alt, exist_ok=True)
     subprocess.run(["rsync", "-a", "--delete", "--exclude", "target", HARNESS + "/", os.path.join(_alt, "harness") + "/"], check=True)
     _ct = open(os.path.join(_alt, "harness", "Cargo.toml")).read().replace('path = "/repo"', f'path = "{REPO}"')
@@ -253,11 +253,37 @@ def engine_a(prop, tier, seed):
             log(f"  {f['message']}")
             violation = (path, f["message"])
             break
+    io_cov = {}
+    if prop == "C11" and not violation:
+        # "every other operation returns normally" includes the byte-stream operations of u8 buffers
+        # (consume / read / write with every size class, capacity zero included): same engine as C14
+        for v in variants:
+            out = os.path.join(OUT, f"C11.io.{v}.json")
+            if os.path.exists(out):
+                os.remove(out)
+            p = subprocess.run([binary(v), "io", "C11", "--apis", "std", "--tier", tier, "--seed", str(seed), "--out", out],
+                               stdout=subprocess.PIPE, stderr=subprocess.STDOUT, text=True)
+            if p.returncode != 0 or not os.path.exists(out):
+                log(p.stdout[-1500:])
+                write_min_evidence(prop, tier, seed, time.time() - t0, 0, f"io engine exit {p.returncode} on {v}")
+                inconclusive(f"property=C11 build={v}: byte-stream engine exit {p.returncode}")
+            rep = json.load(open(out))
+            io_cov[f"byte_stream_cases_{v}"] = rep["enumerative"]["evaluations"] + rep["proptest"]["evaluations"]
+            if rep.get("failure"):
+                f = rep["failure"]
+                path = save_replay(prop, {"property": prop, "build": v, "engine": "io", "case": f["case"], "message": f["message"],
+                                          "rendered": f["rendered"], "generator": f["generator"], "seed": seed})
+                log(f"failing byte-stream case (build {v}): {f['rendered']}")
+                log(f"  {f['message']}")
+                violation = (path, f["message"])
+                break
     deep_cov = {}
     if tier == "thorough" and not violation:
         deep_cov, violation = deep_tier(prop, seed)
     wall = time.time() - t0
     cov = merge_reports(prop, reports)
+    cov.update(io_cov)
+    cov["evaluations"] += sum(io_cov.values())
     cov.update(deep_cov)
     cov["evaluations"] += deep_cov.get("fuzz_executions", 0) + deep_cov.get("miri_cases", 0)
     cov["regression_cases_replayed"] = nreg
@@ -336,7 +362,11 @@ def replay_cmd(prop, path):
         bad = False
         for v in variants:
             build(v)
-            r, out = replay_once(v, prop, path)
+            if meta.get("engine") == "io":
+                p = subprocess.run([binary(v), "replay-io", path], stdout=subprocess.PIPE, stderr=subprocess.STDOUT, text=True, timeout=120)
+                r, out = ("ok" if p.returncode == 0 else "fail"), p.stdout
+            else:
+                r, out = replay_once(v, prop, path)
             log(f"--- build {v}: {r}")
             log(out.strip())
             bad |= r != "ok"
